@@ -55,6 +55,23 @@ def c01_eval_dimguess(v, spec):
                             and 'shape' in p for p in pr)
 
 
+@pred('C01-arl-partial-level-variable')
+def c01_arl_partial_level(v, spec):
+    # arlpackedbit collects a level variable from the levels that carry it and
+    # declares it on ('time', 'z', 'y', 'x') although it has fewer levels than
+    # z when some level of the file lacks it.
+    if v['kind'] != 'reader-malformed:arl':
+        return False
+    rs = ((spec or {}).get('file') or {}).get('reader') or {}
+    ex = (rs.get('spec') or {}).get('layextra')
+    if not ex:
+        return False
+    pr = v.get('problems') or []
+    return bool(pr) and all(p.startswith("variable %s('time', 'z', 'y', 'x')"
+                                         % ex['key']) and 'shape' in p
+                            for p in pr)
+
+
 @pred('C03-integer-truncation')
 def c03_int_trunc(v, spec):
     # applyAlongDimensions stores the function's result in a variable of the
